@@ -3,7 +3,7 @@
 EXTENDS Cli, Json, IOUtils, SequencesExt, FiniteSetsExt
 
 CloneModes ==
-  {mm \in [cmd : {"clone"}, out : {"absent", "regular", "dangling", "bd_small", "bd_tail", "bd_equal", "bd_large"}, force : BOOLEAN, inplace : BOOLEAN,
+  {mm \in [cmd : {"clone"}, out : {"absent", "regular", "empty", "dangling", "bd_small", "bd_tail", "bd_equal", "bd_large"}, force : BOOLEAN, inplace : BOOLEAN,
            arch : {"valid", "invalid"}, pin : {"none", "match", "mismatch"}, nseeds : {0, 2}, stdin_seed : BOOLEAN,
            verify_out : BOOLEAN, transport : {"local", "http"}, empty_input : {FALSE}, stale_tmp : {"none"},
            late : {"none", "bad_chunk"}, race : {"none", "appears"}, seed_out : BOOLEAN] :
@@ -21,7 +21,7 @@ CloneModes ==
      \* the runner lets the first seed (or the prior output under --seed-output) hold every chunk.)
      /\ TRUE}
 CompressModes ==
-  {mm \in [cmd : {"compress"}, out : {"absent", "regular", "dangling"}, force : BOOLEAN, inplace : {FALSE}, arch : {"valid"}, pin : {"none"}, nseeds : {0},
+  {mm \in [cmd : {"compress"}, out : {"absent", "regular", "empty", "dangling"}, force : BOOLEAN, inplace : {FALSE}, arch : {"valid"}, pin : {"none"}, nseeds : {0},
            stdin_seed : BOOLEAN, verify_out : {FALSE}, transport : {"local"}, empty_input : BOOLEAN, stale_tmp : {"none", "longer", "shorter"},
            late : {"none"}, race : {"none"}, seed_out : {FALSE}] :
      \* compress --force-create through a dangling link creates the link's target: the file system's business, not a mode here
